@@ -10,9 +10,9 @@ use crate::rng::Rng;
 use serde_json::json;
 
 pub const KINDS: [Kind; 9] = [Kind::Sma, Kind::Wma, Kind::Sd, Kind::Bb, Kind::Mad, Kind::Cci, Kind::Mfi, Kind::Min, Kind::Max];
-pub const PERIODS: [usize; 11] = [1, 2, 3, 5, 7, 14, 50, 67, 100, 200, 1000];
+pub const PERIODS: [usize; 14] = [1, 2, 3, 4, 5, 7, 8, 14, 50, 64, 67, 100, 200, 1000];
 
-pub const RULE: &str = "SOAK: one instance fed N = 2.2*10^6 consecutive inputs without reset (MAD/CCI, which cost O(n) per input: 2.2*10^5 in quick) for SMA/WMA/SD/BB/MAD/CCI/MFI/MIN/MAX x periods {1,2,3,5,7,14,50,67,100,200,1000} x regimes {random walk, alternating extremes, spikes, plateaus, saw-tooth with tooth lengths 7/100/997/1000/1024, alternating exact values, quiet level with spikes, bad ticks, a walk on a tick grid and iid integers (ties, new extremes among duplicates)} x band floor m in {1e-3,1,1e6} (a seeded subset of the combinations per run; bars for CCI/MFI are built around the price path with independent high/low/close and volume over 6 decades). Judged on the first 3000 steps, every 997th step and the last, against a double-double recomputation from the harness's own copy of the window: tau(t)*M (M^2 on variances; x condition number for CCI, c<=1e6, and MFI, c<=1000); MIN/MAX exact; variance never negative/NaN. Non-trivial: every soak run (longer than the period by construction); distinct by construction (combination index).";
+pub const RULE: &str = "SOAK: one instance fed N = 2.2*10^6 consecutive inputs without reset (MAD/CCI, which cost O(n) per input: 2.2*10^5 in quick) for SMA/WMA/SD/BB/MAD/CCI/MFI/MIN/MAX x periods {1,2,3,4,5,7,8,14,50,64,67,100,200,1000} x regimes {random walk, alternating extremes, spikes, plateaus, saw-tooth with tooth lengths 7/100/997/1000/1024, alternating exact values, quiet level with spikes, bad ticks, a walk on a tick grid and iid integers (ties, new extremes among duplicates)} x band floor m in {1e-3,1,1e6} (a seeded subset of the combinations per run; bars for CCI/MFI are built around the price path with independent high/low/close and volume over 6 decades). Judged on the first 3000 steps, every 997th step and the last, against a double-double recomputation from the harness's own copy of the window: tau(t)*M (M^2 on variances; x condition number for CCI, c<=1e6, and MFI, c<=1000); MIN/MAX exact; variance never negative/NaN. Non-trivial: every soak run (longer than the period by construction); distinct by construction (combination index).";
 
 fn judge(p: &Params, out: &Out, r: &RefOut, js: &mut Judgements) -> usize {
     match p.kind {
@@ -152,7 +152,7 @@ pub fn run(ctx: &Ctx) -> Report {
                     let keep = if ctx.quick() {
                         // saw-tooth x small periods is where drift shows first: always keep those for WMA/SMA/SD
                         let hot = matches!(regime, Regime::Saw(_)) && n <= 7 && matches!(kind, Kind::Wma | Kind::Sma | Kind::Sd | Kind::Bb) && mi == 1;
-                        hot || (!heavy && rng.chance(0.10)) || (heavy && rng.chance(0.04))
+                        hot || (!heavy && rng.chance(0.08)) || (heavy && rng.chance(0.04))
                     } else {
                         !heavy || (ri + mi) % 5 == 0
                     };
